@@ -563,6 +563,12 @@ class Analyzer:
     def stmt(self, x, st, loop):
         if isinstance(x, ast.Assign) and len(x.targets) == 1:
             return self.assign(x, st)
+        if isinstance(x, ast.Assign) and len(x.targets) > 1 and all(isinstance(t_, ast.Name) for t_ in x.targets):
+            # a = b = e : the value goes to the first target, the others copy it
+            st = self.assign(ast.copy_location(ast.Assign(targets=[x.targets[0]], value=x.value, lineno=x.lineno, col_offset=x.col_offset), x), st)
+            for t_ in x.targets[1:]:
+                st = self.assign(ast.copy_location(ast.Assign(targets=[t_], value=ast.copy_location(ast.Name(id=x.targets[0].id, ctx=ast.Load()), x), lineno=x.lineno, col_offset=x.col_offset), x), st)
+            return st
         if isinstance(x, ast.AugAssign) and isinstance(x.target, ast.Name) and isinstance(x.op, ast.Add):
             st = copy.deepcopy(st)
             c = st.get(x.target.id)
